@@ -815,7 +815,9 @@ theorem callOp_delta {op : Op} (h : callOp c s t op = some s') : StepOK c s s' t
       · simp at h
       · rename_i hl
         simp only [Option.some.injEq] at h; subst h
-        refine ⟨fun u hu => rfl, .alloc o (by simpa [isLive] using hl) (fun a => ?_) rfl rfl⟩
+        have hl' : o ∉ toks c s := by
+          intro hin; exact hl (Or.inr (by simp [isLive, hin]))
+        refine ⟨fun u hu => rfl, .alloc o hl' (fun a => ?_) rfl rfl⟩
         simp only [coreCnt, cacheToks, List.count_append, List.count_cons, List.count_nil]
         by_cases e : a = o
         · subst e; simp; omega
